@@ -304,6 +304,59 @@ def exponent_forms(ctx):
                               f"normalised value times {want!r}: {u1} vs {n1 * want}", case)
 
 
+def dtype_forms(ctx):
+    """Whole-number points, centres, coefficients and exponents handed over in integer dtypes or as lists give the potential
+    of their float copies (argument forms; after seeded changes C17-G and C11-I, where an integer dtype leaked into the
+    arithmetic), and integer radii give the single-centre functions of the float radii."""
+    from grid.coulomb import coulomb_gaussian_p, coulomb_gaussian_s, coulomb_potential
+
+    P = np.array([[0, 0, 0], [1, 0, 0], [2, -1, 3], [0, 0, 5], [-4, 2, 1], [1, 1, 1]])
+    CS, CO, AL = np.array([[0, 0, 0], [1, 1, 0], [0, -2, 1]]), np.array([2, -1, 3]), np.array([1, 3, 2])
+    CP, PCO_, PAL_ = np.array([[0, 0, 1], [2, 0, 0]]), np.array([1, -2]), np.array([2, 5])
+    f = lambda a: np.asarray(a, dtype=float)
+    for normalized in (True, False):
+        want = coulomb_potential(f(P), f(CS), f(CO), f(AL), centers_p=f(CP), coeffs_p=f(PCO_), alphas_p=f(PAL_), normalized=normalized)
+        ref = np.zeros(len(P))
+        for c, a, ctr in zip(CO, AL, CS):
+            ref += c * coulomb_gaussian_s(_dist(f(P), f(ctr)), float(a), normalized=normalized)
+        for c, a, ctr in zip(PCO_, PAL_, CP):
+            ref += c * coulomb_gaussian_p(_dist(f(P), f(ctr)), float(a), normalized=normalized)
+        for fname, conv in (("int64", lambda a: np.asarray(a, dtype=np.int64)), ("int32", lambda a: np.asarray(a, dtype=np.int32)),
+                            ("lists", lambda a: np.asarray(a).tolist()), ("float-baseline", f)):
+            ctx.count(section="dtype-forms")
+            case = {"route": "dtype-forms", "form": fname, "normalized": normalized}
+            try:
+                with np.errstate(all="ignore"):
+                    got = np.asarray(coulomb_potential(conv(P), conv(CS), conv(CO), conv(AL), centers_p=conv(CP), coeffs_p=conv(PCO_),
+                                                       alphas_p=conv(PAL_), normalized=normalized), dtype=float)
+            except Exception as exc:
+                if fname == "lists":
+                    ctx.inadm(section="dtype-forms")
+                    continue
+                ctx.violation(f"dtype-forms:{fname}:raised:{type(exc).__name__}", f"coulomb_potential with {fname} arguments: {type(exc).__name__}: {exc}", case)
+                continue
+            ctx.nontrivial(("dtype-forms", fname, normalized), section="dtype-forms")
+            if got.shape != want.shape or np.any(_gt(np.abs(got - want), 1e-13 * (np.abs(want) + 1e-3))) or np.any(_gt(np.abs(got - ref), 1e-12 * (np.abs(ref) + 1e-3))):
+                ctx.violation(f"dtype-forms:{fname}:differs-from-float-arguments", f"coulomb_potential (normalized={normalized}) with {fname} arguments: "
+                              f"{got} vs {want} for the float copies", case)
+        ri = np.array([0, 1, 2, 5, 30])
+        for kind, fn in (("s", coulomb_gaussian_s), ("p", coulomb_gaussian_p)):
+            for alpha in (2, 0.7):
+                for fname, conv in (("int64", lambda a: a.astype(np.int64)), ("int32", lambda a: a.astype(np.int32))):
+                    ctx.count(section="dtype-forms")
+                    case = {"route": "dtype-forms", "form": fname, "kind": kind, "alpha": alpha, "normalized": normalized}
+                    try:
+                        with np.errstate(all="ignore"):
+                            a = np.asarray(fn(conv(ri), alpha, normalized=normalized), dtype=float)
+                            b = np.asarray(fn(ri.astype(float), float(alpha), normalized=normalized), dtype=float)
+                    except Exception as exc:
+                        ctx.violation(f"dtype-forms:radii:{fname}:raised:{type(exc).__name__}", f"coulomb_gaussian_{kind}(integer radii, {alpha}): {exc}", case)
+                        continue
+                    ctx.nontrivial(("dtype-forms", "radii", kind, alpha, fname, normalized), section="dtype-forms")
+                    if a.shape != b.shape or not np.allclose(a, b, rtol=1e-13, atol=0):
+                        ctx.violation(f"dtype-forms:radii:{kind}:differs-from-float-radii", f"coulomb_gaussian_{kind} with {fname} radii {ri.tolist()}, alpha={alpha}: {a} vs {b}", case)
+
+
 def homogeneity(ctx):
     """The multi-centre potential is linear in its coefficients: 1e-20 c and 1e15 c."""
     from grid.coulomb import coulomb_potential
@@ -401,6 +454,7 @@ def run(ctx):
     ctx.guarded("refill", refill_histories, ctx)
     ctx.guarded("exponent-forms", exponent_forms, ctx)
     ctx.guarded("homogeneity", homogeneity, ctx)
+    ctx.guarded("dtype-forms", dtype_forms, ctx)
     ctx.cov["alphas"] = [ALPHAS[0], ALPHAS[-1], len(ALPHAS)]
     ctx.cov["radii"] = [repr(r) for r in RS]
     ctx.exhaustive = True
@@ -417,5 +471,7 @@ def replay(ctx, case):
         homogeneity(ctx)
     elif case["route"] == "exponent-forms":
         exponent_forms(ctx)
+    elif case["route"] == "dtype-forms":
+        dtype_forms(ctx)
     else:
         loader(ctx)
